@@ -478,6 +478,10 @@ func init() {
 		c.Bounds["names"] = gen.Sigma
 		c.Bounds["path_templates"] = pathTemplates
 		cat := c12Catalogue(gen.Sigma, 0, single, true)
+		if !c.Thorough() {
+			// quick: chains of three keywords for one plain name (depth-dependent slips), all lengths for every name in thorough
+			cat = append(cat, c12Catalogue([]string{"a"}, 3, 3, false)...)
+		}
 		c.Bounds["catalogue_singles"] = len(cat)
 		runDocCatalogue(c, "c12", cat, 1, c12Check)
 		pc := c12Catalogue(pairNames, 0, 1, c.Thorough())
